@@ -91,28 +91,15 @@ type Case struct {
 	Rounds  int    `json:"rounds,omitempty"`
 	Reader  bool   `json:"reader,omitempty"` // a goroutine calling DebugInfo all the time
 	// rate
+	Direct  bool  `json:"direct,omitempty"` // callers use GlobalFlowControl.TryAcquireN instead of DoAcquire
 	Workers int   `json:"workers,omitempty"`
 	Millis  int   `json:"millis,omitempty"`
 	Asks    []int32 `json:"asks,omitempty"`
 }
 
-// The one class that is a recorded finding on this tree (known_findings.txt): it is recorded once per run and
-// does not count against the failure budget that ends the exploration early.
-const staleClockClass = "c08.tokens-rate-stale-clock"
+func recordFailure(c *rig.Ctx, f rig.Failure) { c.Fail(f) }
 
-var staleClockRecorded int
-
-func recordFailure(c *rig.Ctx, f rig.Failure) {
-	if f.Class == staleClockClass {
-		if staleClockRecorded > 0 {
-			return
-		}
-		staleClockRecorded++
-	}
-	c.Fail(f)
-}
-
-func otherFailures(c *rig.Ctx) int { return c.NFailures() - staleClockRecorded }
+func otherFailures(c *rig.Ctx) int { return c.NFailures() }
 
 // ------------------------------------------------------------------------------------------------
 // the real code
@@ -120,6 +107,8 @@ func otherFailures(c *rig.Ctx) int { return c.NFailures() - staleClockRecorded }
 type world struct {
 	store _interface.LimitStore
 	rl    limiter.RateLimiter
+	// a flow control's unexported state could not be read (representation changed): a broken tie
+	notUnderstood bool
 }
 
 func newWorld() *world {
@@ -146,7 +135,10 @@ func (w *world) snapshot() []FCSnap {
 	sort.Strings(names)
 	res := []FCSnap{}
 	for _, n := range names {
-		st := flowcontrol.VerifC08Snapshot(fcs[n])
+		st, understood := peekFC(fcs[n])
+		if !understood {
+			w.notUnderstood = true
+		}
 		s := FCSnap{Name: rig.Hex(n), T: st.Kind, Max: st.Max, Count: st.Count, QPS: st.QPS, Burst: st.Burst, States: [][]interface{}{}}
 		insts := make([]string, 0, len(st.States))
 		for i := range st.States {
@@ -318,7 +310,10 @@ func debugTotals(fc flowcontrol.GlobalFlowControl) (max, count, total int64, ok 
 // flow control. Returns a judge message ("" if fine) and a diff message.
 func (w *world) quiescentCheck() (judge string, diff string) {
 	for name, fc := range local.VerifC08FlowControls(w.store, cluster) {
-		st := flowcontrol.VerifC08Snapshot(fc)
+		st, understood := peekFC(fc)
+		if !understood {
+			return "", fmt.Sprintf("the fields of flow control %q are not understood any more (limit / total / per-instance map)", name)
+		}
 		if st.Kind != "mif" {
 			continue
 		}
@@ -345,7 +340,70 @@ func (w *world) quiescentCheck() (judge string, diff string) {
 
 type obs struct {
 	Reply interface{} `json:"reply"`
-	Snap  []FCSnap    `json:"snap"`
+	Snap  []FCSnap    `json:"snap"` // what the code holds (compared with the model)
+	// for the judge: the same with the CONFIGURED limit of every max-in-flight flow control, and the ghost
+	// "newest request id already processed" per (flow control, instance) BEFORE the op
+	JSnap []FCSnap        `json:"jsnap"`
+	Ghost [][]interface{} `json:"ghost"`
+}
+
+// ghostIDs: per flow control and instance, the newest positive request id of a report that the server answered
+// without an error since the instance was last removed / the flow control (re)created. Tracked from the ops and
+// the replies alone: it is what the property calls "a request id already processed for that instance".
+type ghostIDs map[string]map[string]int64
+
+func (g ghostIDs) list() [][]interface{} {
+	out := [][]interface{}{}
+	for fc, m := range g {
+		for inst, id := range m {
+			out = append(out, []interface{}{fc, inst, id})
+		}
+	}
+	sort.Slice(out, func(i, j int) bool { return fmt.Sprint(out[i]) < fmt.Sprint(out[j]) })
+	return out
+}
+
+func (g ghostIDs) processed(fc, inst string, rid int64, cur int32, errKind string) {
+	if cur < 0 {
+		delete(g[fc], inst)
+		return
+	}
+	if errKind != "" || rid <= 0 {
+		return
+	}
+	if g[fc] == nil {
+		g[fc] = map[string]int64{}
+	}
+	if rid > g[fc][inst] {
+		g[fc][inst] = rid
+	}
+}
+
+// update after one op. mifBefore: the max-in-flight flow controls that existed before the op.
+func (g ghostIDs) update(op Op, reply interface{}, mifBefore map[string]bool, conf *confTracker, reset map[string]bool) {
+	switch op.K {
+	case "set":
+		if r, ok := reply.(setReply); ok && mifBefore[op.FC] {
+			g.processed(op.FC, op.Inst, op.Rid, op.Cur, r.Err)
+		}
+	case "acq":
+		if rs, ok := reply.([]acqReply); ok {
+			for k, r := range rs {
+				if k < len(op.Reqs) && mifBefore[op.Reqs[k].FC] && op.Reqs[k].Tokens >= 0 {
+					g.processed(op.Reqs[k].FC, op.Inst, op.Rid, op.Reqs[k].Tokens, r.Err)
+				}
+			}
+		}
+	case "del":
+		for _, m := range g {
+			delete(m, op.Inst)
+		}
+	}
+	for fc := range g {
+		if f, ok := conf.fcs[fc]; !ok || f.typ != "mif" || reset[fc] {
+			delete(g, fc)
+		}
+	}
 }
 
 type runResult struct {
@@ -368,7 +426,17 @@ func runSeq(c *rig.Ctx, cs Case, record bool) runResult {
 	var observations []obs
 	epochs := map[string]*tbEpoch{}
 	conf := newConfTracker()
+	ghost := ghostIDs{}
 	for i, op := range cs.Ops {
+		ghostBefore := ghost.list()
+		mifBefore := map[string]bool{}
+		if i > 0 {
+			for _, f := range observations[i-1].Snap {
+				if f.T == "mif" {
+					mifBefore[f.Name] = true
+				}
+			}
+		}
 		tBefore := time.Now()
 		reply, pm := w.exec(op)
 		tAfter := time.Now()
@@ -379,7 +447,6 @@ func runSeq(c *rig.Ctx, cs Case, record bool) runResult {
 			return fail("diff", "c08.acquire-error", fmt.Sprintf("op %d: DoAcquire failed: %s", i, s), s, nil)
 		}
 		snap := w.snapshot()
-		observations = append(observations, obs{Reply: reply, Snap: snap})
 		// token-rate judge in real time (one-sided): Σ grants of a bucket over any window in which its (qps, burst)
 		// do not really change is at most burst + qps*T, whatever re-syncs / same-value Resizes fall in between
 		if rs, ok := reply.([]acqReply); ok && op.K == "acq" {
@@ -397,7 +464,15 @@ func runSeq(c *rig.Ctx, cs Case, record bool) runResult {
 				}
 			}
 		}
-		updateEpochs(epochs, conf, op, i)
+		reset := updateEpochs(epochs, conf, op, i)
+		ghost.update(op, reply, mifBefore, conf, reset)
+		jsnap := append([]FCSnap{}, snap...)
+		for k := range jsnap {
+			if f, ok := conf.fcs[jsnap[k].Name]; ok && f.typ == "mif" && jsnap[k].T == "mif" {
+				jsnap[k].Max = f.q // judged against the limit that was configured, not the one the code stored
+			}
+		}
+		observations = append(observations, obs{Reply: reply, Snap: snap, JSnap: jsnap, Ghost: ghostBefore})
 		for _, ep := range epochs {
 			if ep.sameResizes > 0 && len(ep.grants) > 0 {
 				res.features["tb-window-spans-resync"] = true
@@ -648,7 +723,7 @@ func (t *confTracker) apply(op Op) (reset, same map[string]bool) {
 
 // updateEpochs: a bucket's judging window is reset only when the bucket is (re)created, changes type, or its
 // configured qps/burst really change.
-func updateEpochs(epochs map[string]*tbEpoch, conf *confTracker, op Op, opIdx int) {
+func updateEpochs(epochs map[string]*tbEpoch, conf *confTracker, op Op, opIdx int) map[string]bool {
 	reset, same := conf.apply(op)
 	for n, f := range conf.fcs {
 		if f.typ != "tb" || f.q <= 0 {
@@ -666,6 +741,7 @@ func updateEpochs(epochs map[string]*tbEpoch, conf *confTracker, op Op, opIdx in
 			delete(epochs, n)
 		}
 	}
+	return reset
 }
 
 func noteSet(f map[string]bool, cur int32, accept bool, latest int32, err string) {
@@ -724,7 +800,7 @@ func runBucket(c *rig.Ctx, cs Case, record bool) bool {
 	if fc == nil {
 		return fail("diff", "c08.bucket-shim", "no token bucket was built", nil, nil)
 	}
-	lim := flowcontrol.VerifC08Limiter(fc)
+	lim := peekLimiter(fc)
 	if lim == nil {
 		return fail("diff", "c08.bucket-shim", "NewGlobalFlowControl did not build a token bucket", nil, nil)
 	}
@@ -745,7 +821,7 @@ func runBucket(c *rig.Ctx, cs Case, record bool) bool {
 			} else {
 				oks = append(oks, fc.Resize(call.Resize[0], call.Resize[1]))
 			}
-			lim = flowcontrol.VerifC08Limiter(fc)
+			lim = peekLimiter(fc)
 			if lim == nil {
 				return fail("diff", "c08.bucket-shim", "the flow control is no token bucket any more", nil, nil)
 			}
@@ -757,7 +833,6 @@ func runBucket(c *rig.Ctx, cs Case, record bool) bool {
 		Ok      []bool `json:"ok"`
 		Windows *bool  `json:"windows"`
 		Tight   int    `json:"tight"`
-		Stale   bool   `json:"staleReachable"`
 	}
 	if err := c.Model("C08.bucket", map[string]interface{}{"qps": cs.QPS, "burst": cs.Burst, "calls": cs.Calls, "impl": oks}, &m); err != nil {
 		return fail("diff", "c08.model-error", "model error: "+err.Error(), nil, nil)
@@ -779,17 +854,13 @@ func runBucket(c *rig.Ctx, cs Case, record bool) bool {
 	if m.Tight > 0 {
 		c.Count("bucket:knife-edge-calls-following-impl")
 	}
-	if !monotone && !m.Stale {
-		// TryAcquireN reads the clock inside its own critical section: out-of-order readings cannot reach the
-		// limiter, so such a script is only a model-vs-library comparison
-		c.Count("bucket:stale-readings-unreachable-judge-off")
+	if !monotone {
+		// Readings that go back cannot reach the limiter in the real code (TryAcquireN reads the clock inside its
+		// critical section; if a tree loses that, the real-time runs with several callers show it): such a script is a
+		// comparison of the model with the rate library only and is never judged.
+		c.Count("bucket:out-of-order-readings-compared-not-judged")
 	} else if nonneg && m.Windows != nil && !*m.Windows {
-		class, why := "c08.tokens-rate", "clock readings in order"
-		if !monotone {
-			// some readings are older than one the limiter has already seen (what concurrent callers produce)
-			class, why = staleClockClass, "some clock readings stale, windows measured in true time"
-		}
-		return fail("judge", class, fmt.Sprintf("qps=%d burst=%d (%s): some window of the granted calls exceeds burst + qps*T: calls %s granted %v", cs.QPS, cs.Burst, why, rig.Canon(cs.Calls), oks), oks, m.Ok)
+		return fail("judge", "c08.tokens-rate", fmt.Sprintf("qps=%d burst=%d: some window of the granted calls exceeds the configured burst + qps*T: calls %s granted %v", cs.QPS, cs.Burst, rig.Canon(cs.Calls), oks), oks, m.Ok)
 	}
 	if rig.Canon(oks) != rig.Canon(m.Ok) {
 		return fail("diff", "c08.bucket", fmt.Sprintf("qps=%d burst=%d calls %s: limiter answered %v, model %v", cs.QPS, cs.Burst, rig.Canon(cs.Calls), oks, m.Ok), oks, m.Ok)
@@ -902,8 +973,19 @@ func runConc(c *rig.Ctx, cs Case, record bool) bool {
 		if msg := sameIDTwice(cs, out); msg != "" {
 			return fail("judge", "c08.conc-same-id", fmt.Sprintf("round %d: %s", round, msg), out, nil)
 		}
-		// judge 3: the outcome is the outcome of some interleaving of the atomic steps (model)
-		key := rig.Canon(out)
+		// correspondence (not a judge: the property does not demand that replies be those of the atomic model): the
+		// outcome is the outcome of some interleaving of the atomic steps. Resize's answer is left out: the real
+		// Resize is a read followed by a store, two racing calls may both answer true.
+		cmp := concOutcome{Replies: make([][]interface{}, len(out.Replies)), Final: out.Final}
+		for t := range out.Replies {
+			cmp.Replies[t] = append([]interface{}{}, out.Replies[t]...)
+			for i := range cmp.Replies[t] {
+				if i < len(cs.Threads[t]) && cs.Threads[t][i].K == "resize" {
+					cmp.Replies[t][i] = nil
+				}
+			}
+		}
+		key := rig.Canon(cmp)
 		if seen[key] {
 			continue
 		}
@@ -913,12 +995,12 @@ func runConc(c *rig.Ctx, cs Case, record bool) bool {
 			Schedules    int         `json:"schedules"`
 			Example      interface{} `json:"example"`
 		}
-		if err := c.Model("C08.conc", map[string]interface{}{"prefix": cs.Prefix, "threads": cs.Threads, "replies": out.Replies, "final": out.Final}, &m); err != nil {
+		if err := c.Model("C08.conc", map[string]interface{}{"prefix": cs.Prefix, "threads": cs.Threads, "replies": cmp.Replies, "final": cmp.Final}, &m); err != nil {
 			return fail("diff", "c08.model-error", "model error: "+err.Error(), nil, nil)
 		}
 		if !m.Linearizable {
-			return fail("judge", "c08.conc-outcome", fmt.Sprintf("round %d: replies %s and final state %s are not the outcome of any of the %d interleavings of %s after %s",
-				round, rig.Canon(out.Replies), rig.Canon(out.Final), m.Schedules, rig.Canon(cs.Threads), rig.Canon(cs.Prefix)), out, m.Example)
+			return fail("diff", "c08.conc-outcome", fmt.Sprintf("round %d: replies %s and final state %s are not the outcome of any of the %d interleavings of %s after %s",
+				round, rig.Canon(cmp.Replies), rig.Canon(cmp.Final), m.Schedules, rig.Canon(cs.Threads), rig.Canon(cs.Prefix)), out, m.Example)
 		}
 	}
 	c.Count(fmt.Sprintf("conc:distinct-outcomes=%d", min(len(seen), 6)))
@@ -945,7 +1027,8 @@ func sameIDTwice(cs Case, out concOutcome) string {
 			if op.K != "set" || op.Rid <= 0 || i >= len(out.Replies[t]) {
 				continue
 			}
-			if r, ok := out.Replies[t][i].(setReply); ok && r.Err == "" {
+			// a refused report is never accepted, whatever else its reply says: count the ACCEPTED ones
+			if r, ok := out.Replies[t][i].(setReply); ok && r.Accept {
 				processed[key{op.FC, op.Inst, op.Rid}]++
 			}
 		}
@@ -961,7 +1044,7 @@ func sameIDTwice(cs Case, out concOutcome) string {
 	}
 	for k, n := range processed {
 		if n > 1 {
-			return fmt.Sprintf("%d reports of instance %q with request id %d were processed on %q", n, rig.UnHex(k.inst), k.rid, rig.UnHex(k.fc))
+			return fmt.Sprintf("%d reports of instance %q with request id %d were accepted on %q", n, rig.UnHex(k.inst), k.rid, rig.UnHex(k.fc))
 		}
 	}
 	return ""
@@ -985,6 +1068,10 @@ func runRate(c *rig.Ctx, cs Case, record bool) bool {
 	w := newWorld()
 	name := "tb"
 	w.store.SyncFlowControl(cluster, toSchemas([]Schema{{Name: rig.Hex(name), Tb: &[2]int32{cs.QPS, cs.Burst}}}))
+	fc, err := w.store.GetFlowControl(cluster, name)
+	if err != nil {
+		return fail("diff", "c08.rate-setup", "the synced token bucket is not in the store: "+err.Error())
+	}
 	base := time.Now()
 	deadline := base.Add(time.Duration(cs.Millis) * time.Millisecond)
 	grants := make([][]grant, cs.Workers)
@@ -998,25 +1085,38 @@ func runRate(c *rig.Ctx, cs Case, record bool) bool {
 				acq := &proxyv1alpha1.RateLimitAcquire{Spec: proxyv1alpha1.RateLimitAcquireSpec{Instance: fmt.Sprintf("i%d", wk), RequestID: int64(k + 1),
 					Requests: []proxyv1alpha1.RateLimitAcquireRequest{{FlowControl: name, Tokens: ask}}}}
 				b := time.Since(base)
-				res, err := w.rl.DoAcquire(cluster, acq)
-				a := time.Since(base)
-				if err != nil || len(res.Status.Results) != 1 {
-					bad.Store(fmt.Sprintf("DoAcquire failed: %v", err))
-					return
-				}
-				r := res.Status.Results[0]
-				switch {
-				case ask < 0:
-					if r.Accept || r.Limit != 0 || errKind(r.Error) != "NegativeTokens" {
-						bad.Store(fmt.Sprintf("negative ask %d answered accept=%v limit=%d error=%q", ask, r.Accept, r.Limit, r.Error))
+				var accept bool
+				var limit int32
+				var errText string
+				if cs.Direct {
+					// the flow control's own public entry point, as DoAcquire's loop calls it
+					accept = fc.TryAcquireN(fmt.Sprintf("i%d", wk), ask)
+					if accept {
+						limit = ask
 					}
-				case r.Error != "":
-					bad.Store(fmt.Sprintf("ask %d answered error %q", ask, r.Error))
-				case r.Limit < 0 || r.Limit > ask || (!r.Accept && r.Limit != 0) ||
-					(r.Accept && r.Limit != ask && r.Limit != ask/2 && r.Limit != ask/4 && r.Limit != ask/8):
-					bad.Store(fmt.Sprintf("ask %d answered accept=%v limit=%d", ask, r.Accept, r.Limit))
-				case r.Accept:
-					grants[wk] = append(grants[wk], grant{b, a, r.Limit})
+				} else {
+					res, err := w.rl.DoAcquire(cluster, acq)
+					if err != nil || len(res.Status.Results) != 1 {
+						bad.Store(fmt.Sprintf("DoAcquire failed: %v", err))
+						return
+					}
+					r := res.Status.Results[0]
+					accept, limit, errText = r.Accept, r.Limit, r.Error
+				}
+				a := time.Since(base)
+				// the property: a negative ask is refused; a grant lies between 0 and the ask. A refusal (accept=false,
+				// with or without an error) grants nothing, whatever limit value comes with it.
+				switch {
+				case ask < 0 && cs.Direct:
+					// not reachable through the server (DoAcquire refuses negative asks first): not judged
+				case ask < 0:
+					if accept || limit != 0 {
+						bad.Store(fmt.Sprintf("negative ask %d answered accept=%v limit=%d error=%q", ask, accept, limit, errText))
+					}
+				case accept && (limit < 0 || limit > ask):
+					bad.Store(fmt.Sprintf("ask %d answered accept=%v limit=%d", ask, accept, limit))
+				case accept:
+					grants[wk] = append(grants[wk], grant{b, a, limit})
 				}
 				if k%8 == 7 {
 					runtime.Gosched()
@@ -1058,9 +1158,6 @@ func runRate(c *rig.Ctx, cs Case, record bool) bool {
 	}
 	total := time.Since(base)
 	rateClass := "c08.tokens-rate"
-	if cs.Workers > 1 {
-		rateClass = staleClockClass
-	}
 	if msg := check(0, total); msg != "" {
 		return fail("judge", rateClass, fmt.Sprintf("%d concurrent callers: %s", cs.Workers, msg))
 	}
